@@ -501,6 +501,15 @@ var All = []W{
 		}
 		return jsonEq(got, `{"B":[true,false],"T":["1970-01-01T00:00:01Z"]}`)
 	}},
+	{ID: "D33", Property: "C13", What: "descriptor walker errors on a slice whose elements are written as flat integers (time.Time registered with BQTimestampCodec on the instance, which map values and slice elements need as they carry no tag option)", Run: func() error {
+		p := newP(false, false)
+		p.RegisterCodec(reflect.TypeOf(time.Time{}), plenccodec.BQTimestampCodec{})
+		got, err := descJSON(p, &tD16{T: []time.Time{time.Unix(1, 0).UTC(), time.Unix(2, 5000).UTC()}})
+		if err != nil {
+			return err
+		}
+		return jsonEq(got, `{"T":["1970-01-01T00:00:01Z","1970-01-01T00:00:02.000005Z"]}`)
+	}},
 	{ID: "D16b", Property: "C13", What: "descriptor walker drops zero-length elements (empty strings, empty structs, nil pointers) from arrays", Run: func() error {
 		p := newP(false, false)
 		got, err := descJSON(p, &tD16{S: []string{"a", "", "b"}, PS: []*tD16e{{A: 1}, nil, {}}})
